@@ -660,11 +660,21 @@ class Canon:
                 if isinstance(e, ast.Constant):
                     rows.append(e)
                 elif isinstance(e, (ast.Tuple, ast.List)) and all(
-                        isinstance(x, (ast.Constant, ast.Name))
+                        isinstance(x, ast.Constant) or (
+                            _pure_operand(x) and not isinstance(
+                                x, (ast.Tuple, ast.List)))
                         for x in e.elts):
                     rows.append(e)
-                    row_names |= {x.id for x in e.elts
-                                  if isinstance(x, ast.Name)}
+                    row_names |= {n.id for x in e.elts for n in ast.walk(x)
+                                  if isinstance(n, ast.Name)
+                                  and n.id != "self"}
+                    row_attrs = {n.attr for x in e.elts for n in ast.walk(x)
+                                 if isinstance(n, ast.Attribute)}
+                    if any(isinstance(n, ast.Attribute) and isinstance(
+                            n.ctx, (ast.Store, ast.Del)) and
+                            n.attr in row_attrs
+                            for b_ in s.body for n in ast.walk(b_)):
+                        ok = False
                 else:
                     ok = False
             tnames = [n.id for n in ast.walk(s.target)
